@@ -17,6 +17,10 @@ Oracle inputs (not modelled, supplied per case / per request and tied by the cor
   * per script: does it parse, does the program name a task type, the dbrps it declares, does it build as a
     template, with which vars does it build as a task (`Env`);
   * per request: the set of task IDs whose start is refused by TaskMaster.StartTask (`fail`).
+Records are stored under their ID (the key); the redundant ID field of the Go structs is not repeated in the
+record (ObjectID() = key by construction in dao.go). Each handler is split into named sub-steps (resolve script /
+validate / store the definition / move the association / restart / apply the status change) in the code's order, so
+that every sub-step has its own lemma in Kap/Proofs/C14*.lean.
 Abstracted: task type (all pool scripts are stream tasks), the Error / Created / Modified / LastEnabled fields,
 snapshots (their transactions are counted, their content is not modelled), ID syntax check (IDs are well formed),
 storage faults (a transaction commits; crash points are modelled instead), tasks that die at run time.
@@ -31,19 +35,13 @@ deriving DecidableEq, Repr, Inhabited
 def Resp.str : Resp → String
   | .ok => "ok" | .bad => "bad" | .nf => "nf" | .fail => "fail"
 
-/-- A stored task (task_store.Task). `tmpl = ""` means no template, `vars = "v0"` no vars. -/
+/-- A stored task (task_store.Task) without its key. `tmpl = ""` means no template, `vars = "v0"` no vars. -/
 structure Task where
-  id : String
   script : String
   vars : String
   tmpl : String
   dbrps : List String
   enabled : Bool
-deriving DecidableEq, Repr, Inhabited
-
-structure Tmpl where
-  id : String
-  script : String
 deriving DecidableEq, Repr, Inhabited
 
 /-- Oracle attributes of one script. -/
@@ -56,11 +54,12 @@ structure ScriptInfo where
 
 abbrev Env := String → ScriptInfo
 
-/-- The task_store namespace of the Bolt file. `tids` / `mids` enumerate the IDs under which a key was ever
-written, in key order (what a prefix scan of the index returns); the data is in the maps. -/
+/-- The task_store namespace of the Bolt file: tasks by ID, template scripts by ID, association keys.
+`tids` / `mids` enumerate the IDs under which a key was ever written, in key order (what a prefix scan of the
+index returns); the data is in the maps. -/
 structure Store where
   tasks : String → Option Task := fun _ => none
-  tmpls : String → Option Tmpl := fun _ => none
+  tmpls : String → Option String := fun _ => none
   assoc : String → String → Bool := fun _ _ => false   -- assoc templateId taskId
   tids : List String := []
   mids : List String := []
@@ -83,19 +82,19 @@ def World.note (w : World) (b : String) : World :=
 
 /-- One storage Update transaction. -/
 def World.tx (w : World) (f : Store → Store) : World :=
-  let s := f w.store
-  { w with store := s, ntx := w.ntx + 1, snap := if w.cut = some (w.ntx + 1) then some s else w.snap }
+  { w with store := f w.store, ntx := w.ntx + 1,
+           snap := if w.cut = some (w.ntx + 1) then some (f w.store) else w.snap }
 
 /-! ### DAO calls (dao.go) -/
 
-def Store.putTask (s : Store) (t : Task) : Store :=
-  { s with tasks := fun i => if i = t.id then some t else s.tasks i, tids := insId t.id s.tids }
+def Store.putTask (s : Store) (id : String) (t : Task) : Store :=
+  { s with tasks := fun i => if i = id then some t else s.tasks i, tids := insId id s.tids }
 
 def Store.delTask (s : Store) (id : String) : Store :=
   { s with tasks := fun i => if i = id then none else s.tasks i }
 
-def Store.putTmpl (s : Store) (t : Tmpl) : Store :=
-  { s with tmpls := fun i => if i = t.id then some t else s.tmpls i, mids := insId t.id s.mids }
+def Store.putTmpl (s : Store) (id script : String) : Store :=
+  { s with tmpls := fun i => if i = id then some script else s.tmpls i, mids := insId id s.mids }
 
 /-- templateKV.Delete: data, index and ALL associations of the template. -/
 def Store.delTmpl (s : Store) (id : String) : Store :=
@@ -107,28 +106,20 @@ def Store.setAssoc (s : Store) (m k : String) (b : Bool) : Store :=
            tids := if b then insId k s.tids else s.tids }
 
 /-- tasks.Create: fails (transaction without effect) when the ID exists. -/
-def tasksCreate (w : World) (t : Task) : World × Bool :=
-  match w.store.tasks t.id with
-  | some _ => (w.tx (fun s => s), false)
-  | none => (w.tx (·.putTask t), true)
+def tasksCreate (w : World) (id : String) (t : Task) : World × Bool :=
+  if (w.store.tasks id).isSome then (w.tx (fun s => s), false) else (w.tx (·.putTask id t), true)
 
 /-- tasks.Replace: fails when the ID does not exist. -/
-def tasksReplace (w : World) (t : Task) : World × Bool :=
-  match w.store.tasks t.id with
-  | some _ => (w.tx (·.putTask t), true)
-  | none => (w.tx (fun s => s), false)
+def tasksReplace (w : World) (id : String) (t : Task) : World × Bool :=
+  if (w.store.tasks id).isSome then (w.tx (·.putTask id t), true) else (w.tx (fun s => s), false)
 
 def tasksDelete (w : World) (id : String) : World := w.tx (·.delTask id)
 
-def tmplCreate (w : World) (t : Tmpl) : World × Bool :=
-  match w.store.tmpls t.id with
-  | some _ => (w.tx (fun s => s), false)
-  | none => (w.tx (·.putTmpl t), true)
+def tmplCreate (w : World) (id script : String) : World × Bool :=
+  if (w.store.tmpls id).isSome then (w.tx (fun s => s), false) else (w.tx (·.putTmpl id script), true)
 
-def tmplReplace (w : World) (t : Tmpl) : World × Bool :=
-  match w.store.tmpls t.id with
-  | some _ => (w.tx (·.putTmpl t), true)
-  | none => (w.tx (fun s => s), false)
+def tmplReplace (w : World) (id script : String) : World × Bool :=
+  if (w.store.tmpls id).isSome then (w.tx (·.putTmpl id script), true) else (w.tx (fun s => s), false)
 
 def tmplDelete (w : World) (id : String) : World := w.tx (·.delTmpl id)
 def associate (w : World) (m k : String) : World := w.tx (·.setAssoc m k true)
@@ -139,9 +130,7 @@ def listAssoc (s : Store) (m : String) : List String := s.tids.filter (s.assoc m
 
 /-- saveLastError: Get, then Replace (one transaction; the Error field is not modelled). -/
 def saveLastError (w : World) (id : String) : World :=
-  match w.store.tasks id with
-  | some _ => w.tx (fun s => s)
-  | none => w
+  if (w.store.tasks id).isSome then w.tx (fun s => s) else w
 
 /-! ### TaskMaster -/
 
@@ -155,18 +144,17 @@ def stopTask (w : World) (id : String) : World := w.setExec id false
 def buildable (env : Env) (t : Task) : Bool := (env t.script).valid t.vars
 
 /-- TaskMaster.StartTask succeeds (given that the task builds): it has dbrps and the oracle does not refuse it. -/
-def startable (fail : List String) (t : Task) : Bool := !t.dbrps.isEmpty && !fail.contains t.id
+def startable (fail : List String) (id : String) (t : Task) : Bool := !t.dbrps.isEmpty && !fail.contains id
 
-/-- The oracle outcome of a start attempt of `t` during a request with refusals `fail`. -/
-def startOK (env : Env) (fail : List String) (t : Task) : Bool := buildable env t && startable fail t
+/-- The oracle outcome of a start attempt of task `id` = `t` during a request with refusals `fail`. -/
+def startOK (env : Env) (fail : List String) (id : String) (t : Task) : Bool := buildable env t && startable fail id t
 
 /-- startTask. -/
-def startTask (env : Env) (fail : List String) (w : World) (t : Task) : World × Bool :=
+def startTask (env : Env) (fail : List String) (w : World) (id : String) (t : Task) : World × Bool :=
   if !buildable env t then (w.note "start-unbuildable", false)
-  else
-    let w := saveLastError w t.id           -- "Starting task, remove last error"
-    if !startable fail t then ((saveLastError w t.id).note "start-refused", false)
-    else ((w.setExec t.id true).note "start-ok", true)
+  else if !startable fail id t then
+    ((saveLastError (saveLastError w id) id).note "start-refused", false)   -- clear the error, record the new one
+  else (((saveLastError w id).setExec id true).note "start-ok", true)       -- "Starting task, remove last error"
 
 /-! ### Requests -/
 
@@ -203,211 +191,248 @@ deriving DecidableEq, Repr
 def Variant.snapshot : Variant := ⟨true, true⟩
 def Variant.fixed : Variant := ⟨false, false⟩
 
-/-- handleCreateTask. -/
+/-! ### handleCreateTask -/
+
+/-- Template: copy its script; plain: the script must be given. (script, templated?) -/
+def createScript (s : Store) (r : TaskReq) : Option (String × Bool) :=
+  if r.tmpl ≠ "" then (s.tmpls r.tmpl).map (fun sc => (sc, true))
+  else if r.script = "" then none else some (r.script, false)
+
+/-- The validation chain of handleCreateTask after the script is known: the record to store, or the branch that
+rejects the request (400). -/
+def createValidate (env : Env) (r : TaskReq) (script : String) : Except String Task :=
+  if !(env script).parse then .error "create-parse"
+  else if !(env script).typed then .error "create-untyped"
+  else if !buildable env { script := script, vars := r.vars, tmpl := r.tmpl, dbrps := r.dbrps, enabled := r.status = some true }
+    then .error "create-invalid"
+  else if (env script).pdbrps.isEmpty && r.dbrps.isEmpty then .error "create-no-dbrp"
+  else if !(env script).pdbrps.isEmpty && !r.dbrps.isEmpty then .error "create-both-dbrp"
+  else .ok { script := script, vars := r.vars, tmpl := r.tmpl,
+             dbrps := if (env script).pdbrps.isEmpty then r.dbrps else (env script).pdbrps,
+             enabled := r.status = some true }
+
+/-- Save the task, associate it with its template, start it when enabled. -/
+def createCommit (v : Variant) (env : Env) (fail : List String) (w : World) (id : String) (t : Task) (templated : Bool) :
+    World × Resp :=
+  let c := tasksCreate w id t
+  if !c.2 then (c.1, .fail)
+  else
+    let w1 := if templated && !v.assocEarly then associate c.1 t.tmpl id else c.1
+    let w2 := if templated then w1.note "create-templated" else w1
+    if t.enabled then
+      let s := startTask env fail w2 id t
+      if s.2 then (s.1.note "create-enabled", .ok) else (s.1.note "create-start-failed", .fail)
+    else (w2.note "create-disabled", .ok)
+
 def createTask (v : Variant) (env : Env) (fail : List String) (w : World) (id : String) (r : TaskReq) : World × Resp :=
-  match w.store.tasks id with
-  | some _ => (w.note "create-exists", .bad)
-  | none =>
-    -- template: copy the script; plain: the script must be given
-    let pre : Option (String × Bool) :=
-      if r.tmpl ≠ "" then
-        match w.store.tmpls r.tmpl with
-        | none => none
-        | some m => some (m.script, true)
-      else if r.script = "" then none else some (r.script, false)
-    match pre with
+  if (w.store.tasks id).isSome then (w.note "create-exists", .bad)
+  else
+    match createScript w.store r with
     | none => (w.note "create-no-script-or-template", .bad)
     | some (script, templated) =>
-      let w := if templated && v.assocEarly then associate w r.tmpl id else w
-      let info := env script
-      if !info.parse then (w.note "create-parse", .bad)
-      else if !info.typed then (w.note "create-untyped", .bad)
-      else
-        let t0 : Task := { id := id, script := script, vars := r.vars, tmpl := r.tmpl, dbrps := r.dbrps,
-                           enabled := r.status = some true }
-        if !buildable env t0 then (w.note "create-invalid", .bad)
-        else if info.pdbrps.isEmpty && r.dbrps.isEmpty then (w.note "create-no-dbrp", .bad)
-        else if !info.pdbrps.isEmpty && !r.dbrps.isEmpty then (w.note "create-both-dbrp", .bad)
-        else
-          let t : Task := if info.pdbrps.isEmpty then t0 else { t0 with dbrps := info.pdbrps }
-          let (w, ok) := tasksCreate w t
-          if !ok then (w, .fail)
-          else
-            let w := if templated && !v.assocEarly then associate w r.tmpl id else w
-            let w := if templated then w.note "create-templated" else w
-            if t.enabled then
-              let (w, ok) := startTask env fail w t
-              if ok then (w.note "create-enabled", .ok) else (w.note "create-start-failed", .fail)
-            else (w.note "create-disabled", .ok)
+      let w1 := if templated && v.assocEarly then associate w r.tmpl id else w
+      match createValidate env r script with
+      | .error b => (w1.note b, .bad)
+      | .ok t => createCommit v env fail w1 id t templated
+
+/-! ### handleUpdateTask -/
+
+/-- Resolve script and template of the updated task: (script, template id). -/
+def updateScript (env : Env) (s : Store) (orig : Task) (r : TaskReq) : Option (String × String) :=
+  if r.tmpl ≠ "" ∨ orig.tmpl ≠ "" then
+    (s.tmpls (if r.tmpl = "" then orig.tmpl else r.tmpl)).map (fun sc => (sc, if r.tmpl = "" then orig.tmpl else r.tmpl))
+  else if !(env orig.script).parse then none
+  else if r.script ≠ "" then
+    if !(env r.script).parse then none
+    else if !(env orig.script).pdbrps.isEmpty && (env r.script).pdbrps.isEmpty && r.dbrps.isEmpty then none
+    else some (r.script, "")
+  else some (orig.script, "")
+
+/-- Does the template association have to move? -/
+def needsReassoc (v : Variant) (id newId : String) (orig : Task) (m : String) : Bool :=
+  decide (m ≠ "") && (if v.reassocById then decide (id ≠ newId) else decide (id ≠ newId ∨ orig.tmpl ≠ m))
+
+/-- The validation chain of handleUpdateTask after script and template are known. -/
+def updateValidate (env : Env) (orig : Task) (r : TaskReq) (script m : String) : Except String Task :=
+  if !(env script).parse then .error "update-parse"
+  else if !(env script).pdbrps.isEmpty && !r.dbrps.isEmpty then .error "update-both-dbrp"
+  else if !(env script).typed then .error "update-untyped"
+  else if !buildable env
+      { script := script, vars := if r.vars ≠ "v0" then r.vars else orig.vars, tmpl := m,
+        dbrps := if !(env script).pdbrps.isEmpty then (env script).pdbrps else if !r.dbrps.isEmpty then r.dbrps else orig.dbrps,
+        enabled := match r.status with | some b => b | none => orig.enabled }
+    then .error "update-invalid"
+  else .ok
+      { script := script, vars := if r.vars ≠ "v0" then r.vars else orig.vars, tmpl := m,
+        dbrps := if !(env script).pdbrps.isEmpty then (env script).pdbrps else if !r.dbrps.isEmpty then r.dbrps else orig.dbrps,
+        enabled := match r.status with | some b => b | none => orig.enabled }
 
 /-- The association bookkeeping of handleUpdateTask. -/
-def reassociate (w : World) (orig : Task) (m newId : String) : World :=
-  let w := if orig.tmpl ≠ "" then disassociate w orig.tmpl orig.id else w
-  (associate w m newId).note "update-reassociate"
+def reassociate (w : World) (id : String) (orig : Task) (m newId : String) : World :=
+  (associate (if orig.tmpl ≠ "" then disassociate w orig.tmpl id else w) m newId).note "update-reassociate"
 
-/-- handleUpdateTask. -/
+/-- Store the definition: ID change = Create(new) + Delete(old), else Replace. -/
+def storeDefinition (w : World) (id newId : String) (upd : Task) : World × Bool :=
+  if id ≠ newId then
+    if (tasksCreate w newId upd).2 then ((tasksDelete (tasksCreate w newId upd).1 id).note "rename", true)
+    else ((tasksCreate w newId upd).1.note "rename-onto-existing", false)
+  else tasksReplace w id upd
+
+/-- Renamed while enabled: stop the old, start the new. -/
+def restartRenamed (env : Env) (fail : List String) (w : World) (id newId : String) (orig upd : Task) : World × Bool :=
+  if id ≠ newId ∧ orig.enabled = true ∧ upd.enabled = true then
+    ((startTask env fail (stopTask w id) newId upd).1.note
+        (if (startTask env fail (stopTask w id) newId upd).2 then "rename-enabled" else "rename-start-failed"),
+      (startTask env fail (stopTask w id) newId upd).2)
+  else (w, true)
+
+/-- Enable / disable. -/
+def applyStatus (env : Env) (fail : List String) (w : World) (id newId : String) (orig upd : Task) : World × Resp :=
+  if orig.enabled != upd.enabled then
+    if upd.enabled then
+      if (startTask env fail w newId upd).2 then ((startTask env fail w newId upd).1.note "update-enable", .ok)
+      else ((startTask env fail w newId upd).1.note "update-enable-start-failed", .fail)
+    else ((stopTask w id).note "update-disable", .ok)
+  else (w.note (if orig.enabled then "update-stays-enabled" else "update-stays-disabled"), .ok)
+
+def updateCommit (v : Variant) (env : Env) (fail : List String) (w : World) (id newId : String) (orig upd : Task)
+    (reassoc : Bool) : World × Resp :=
+  if !(storeDefinition w id newId upd).2 then ((storeDefinition w id newId upd).1, .fail)
+  else
+    let w1 := if reassoc && !v.assocEarly then reassociate (storeDefinition w id newId upd).1 id orig upd.tmpl newId
+              else (storeDefinition w id newId upd).1
+    if !(restartRenamed env fail w1 id newId orig upd).2 then ((restartRenamed env fail w1 id newId orig upd).1, .fail)
+    else applyStatus env fail (restartRenamed env fail w1 id newId orig upd).1 id newId orig upd
+
 def updateTask (v : Variant) (env : Env) (fail : List String) (w : World) (id : String) (r : TaskReq) : World × Resp :=
   match w.store.tasks id with
   | none => (w.note "update-missing", .nf)
   | some orig =>
-    let newId := if r.newId ≠ "" then r.newId else orig.id
-    -- resolve script / template
-    let pre : Option (String × String × Bool) :=      -- (script, template id, move the association?)
-      if r.tmpl ≠ "" ∨ orig.tmpl ≠ "" then
-        let m := if r.tmpl = "" then orig.tmpl else r.tmpl
-        match w.store.tmpls m with
-        | none => none
-        | some mt => some (mt.script, m, if v.reassocById then decide (orig.id ≠ newId)
-                                         else decide (orig.id ≠ newId ∨ orig.tmpl ≠ m))
-      else
-        if !(env orig.script).parse then none
-        else if r.script ≠ "" then
-          if !(env r.script).parse then none
-          else if !(env orig.script).pdbrps.isEmpty && (env r.script).pdbrps.isEmpty && r.dbrps.isEmpty then none
-          else some (r.script, "", false)
-        else some (orig.script, "", false)
-    match pre with
+    match updateScript env w.store orig r with
     | none => (w.note "update-bad-script-or-template", .bad)
-    | some (script, m, reassoc) =>
-      let w := if reassoc && v.assocEarly then reassociate w orig m newId else w
-      let info := env script
-      if !info.parse then (w.note "update-parse", .bad)
-      else if !info.pdbrps.isEmpty && !r.dbrps.isEmpty then (w.note "update-both-dbrp", .bad)
-      else
-        let dbrps := if !info.pdbrps.isEmpty then info.pdbrps else if !r.dbrps.isEmpty then r.dbrps else orig.dbrps
-        let enabled := match r.status with | some b => b | none => orig.enabled
-        let statusChanged := orig.enabled != enabled
-        let vars := if r.vars ≠ "v0" then r.vars else orig.vars
-        let upd : Task := { id := newId, script := script, vars := vars, tmpl := m, dbrps := dbrps, enabled := enabled }
-        if !info.typed then (w.note "update-untyped", .bad)
-        else if !buildable env upd then (w.note "update-invalid", .bad)
-        else
-          -- store the definition: ID change = Create(new) + Delete(old), else Replace
-          let r1 : World × Bool :=
-            if orig.id ≠ newId then
-              let (w, ok) := tasksCreate w upd
-              if !ok then (w.note "rename-onto-existing", false) else ((tasksDelete w orig.id).note "rename", true)
-            else tasksReplace w upd
-          if !r1.2 then (r1.1, .fail)
-          else
-            let w := r1.1
-            let w := if reassoc && !v.assocEarly then reassociate w orig m newId else w
-            -- both enabled and renamed: stop the old, start the new
-            let r2 : World × Bool :=
-              if orig.id ≠ newId ∧ orig.enabled ∧ enabled then
-                let (w, ok) := startTask env fail (stopTask w orig.id) upd
-                (w.note (if ok then "rename-enabled" else "rename-start-failed"), ok)
-              else (w, true)
-            if !r2.2 then (r2.1, .fail)
-            else
-              let w := r2.1
-              if statusChanged then
-                if enabled then
-                  let (w, ok) := startTask env fail w upd
-                  if ok then (w.note "update-enable", .ok) else (w.note "update-enable-start-failed", .fail)
-                else ((stopTask w orig.id).note "update-disable", .ok)
-              else (w.note (if orig.enabled then "update-stays-enabled" else "update-stays-disabled"), .ok)
+    | some (script, m) =>
+      let newId := if r.newId ≠ "" then r.newId else id
+      let reassoc := needsReassoc v id newId orig m
+      let w1 := if reassoc && v.assocEarly then reassociate w id orig m newId else w
+      match updateValidate env orig r script m with
+      | .error b => (w1.note b, .bad)
+      | .ok upd => updateCommit v env fail w1 id newId orig upd reassoc
 
-/-- deleteTask. -/
+/-! ### deleteTask -/
+
 def deleteTask (w : World) (id : String) : World × Resp :=
-  let w := w.tx (fun s => s)                       -- snapshots.Delete
-  match w.store.tasks id with
-  | none => (w.note "delete-missing", .ok)
+  match (w.tx (fun s => s)).store.tasks id with           -- snapshots.Delete, then tasks.Get
+  | none => ((w.tx (fun s => s)).note "delete-missing", .ok)
   | some t =>
-    let w := if t.tmpl ≠ "" then (disassociate w t.tmpl t.id).note "delete-templated" else w
-    let w := if t.enabled then (stopTask w id).note "delete-enabled" else w.note "delete-disabled"
-    (tasksDelete w id, .ok)
+    (tasksDelete
+      (if t.enabled then
+         (stopTask (if t.tmpl ≠ "" then (disassociate (w.tx (fun s => s)) t.tmpl id).note "delete-templated" else w.tx (fun s => s)) id).note "delete-enabled"
+       else (if t.tmpl ≠ "" then (disassociate (w.tx (fun s => s)) t.tmpl id).note "delete-templated" else w.tx (fun s => s)).note "delete-disabled")
+      id, .ok)
+
+/-! ### templates -/
 
 /-- handleCreateTemplate. -/
 def createTemplate (env : Env) (w : World) (id script : String) : World × Resp :=
-  match w.store.tmpls id with
-  | some _ => (w.note "tcreate-exists", .bad)
-  | none =>
-    let info := env script
-    if !info.parse || !info.typed || script = "" || !info.tmplOk then (w.note "tcreate-invalid", .bad)
-    else
-      let (w, ok) := tmplCreate w { id := id, script := script }
-      (w.note "tcreate", if ok then .ok else .fail)
+  if (w.store.tmpls id).isSome then (w.note "tcreate-exists", .bad)
+  else if !(env script).parse || !(env script).typed || script = "" || !(env script).tmplOk then (w.note "tcreate-invalid", .bad)
+  else ((tmplCreate w id script).1.note "tcreate", if (tmplCreate w id script).2 then .ok else .fail)
 
 /-- The re-synchronised task of updateAllAssociatedTasks (forward direction). -/
-def retarget (env : Env) (old new : Tmpl) (t : Task) : Task :=
-  { t with tmpl := new.id, script := new.script,
-           dbrps := if !(env old.script).pdbrps.isEmpty || !(env new.script).pdbrps.isEmpty
-                    then (env new.script).pdbrps else t.dbrps }
+def retarget (env : Env) (oldScript newId newScript : String) (t : Task) : Task :=
+  { t with tmpl := newId, script := newScript,
+           dbrps := if !(env oldScript).pdbrps.isEmpty || !(env newScript).pdbrps.isEmpty
+                    then (env newScript).pdbrps else t.dbrps }
 
 /-- … and of its rollback loop. -/
-def untarget (env : Env) (old : Tmpl) (t : Task) : Task :=
-  { t with tmpl := old.id, script := old.script,
-           dbrps := if !(env old.script).pdbrps.isEmpty then (env old.script).pdbrps else t.dbrps }
+def untarget (env : Env) (oldId oldScript : String) (t : Task) : Task :=
+  { t with tmpl := oldId, script := oldScript,
+           dbrps := if !(env oldScript).pdbrps.isEmpty then (env oldScript).pdbrps else t.dbrps }
+
+/-- Replace one task and, when it is enabled, stop and start it. -/
+def reloadTask (env : Env) (fail : List String) (w : World) (k : String) (t : Task) : World × Bool :=
+  if t.enabled then startTask env fail (stopTask (tasksReplace w k t).1 k) k t
+  else ((tasksReplace w k t).1, true)
+
+/-- One iteration of the rollback loop. -/
+def rollbackOne (env : Env) (fail : List String) (oldId oldScript : String) (w : World) (k : String) : World :=
+  match w.store.tasks k with
+  | none => w.note "rollback-missing"
+  | some t =>
+    (reloadTask env fail w k (untarget env oldId oldScript t)).1.note
+      (if t.enabled then "rollback-restart" else "rollback-disabled")
 
 /-- The deferred rollback of updateAllAssociatedTasks over taskIds[0..i]. -/
-def rollback (env : Env) (fail : List String) (old : Tmpl) : World → List String → World
+def rollback (env : Env) (fail : List String) (oldId oldScript : String) : World → List String → World
   | w, [] => w
-  | w, k :: rest =>
-    match w.store.tasks k with
-    | none => rollback env fail old (w.note "rollback-missing") rest
-    | some t =>
-      let t := untarget env old t
-      let (w, _) := tasksReplace w t
-      let w := if t.enabled then (startTask env fail (stopTask w k) t).1.note "rollback-restart" else w.note "rollback-disabled"
-      rollback env fail old w rest
+  | w, k :: rest => rollback env fail oldId oldScript (rollbackOne env fail oldId oldScript w k) rest
+
+/-- One iteration of the forward loop: (world, did the reload succeed). -/
+def retargetOne (env : Env) (fail : List String) (oldId oldScript newId newScript : String) (w : World) (k : String) :
+    World × Bool :=
+  match w.store.tasks k with
+  | none => ((disassociate w oldId k).note "tupdate-stale-association", true)
+  | some t =>
+    ((reloadTask env fail (if oldId ≠ newId then associate w newId k else w) k (retarget env oldScript newId newScript t)).1.note
+        (if t.enabled then "tupdate-restart" else "tupdate-disabled-task"),
+      (reloadTask env fail (if oldId ≠ newId then associate w newId k else w) k (retarget env oldScript newId newScript t)).2)
 
 /-- The forward loop of updateAllAssociatedTasks; `done` = taskIds[0..i). -/
-def updateAll (env : Env) (fail : List String) (old new : Tmpl) : World → List String → List String → World × Bool
+def updateAll (env : Env) (fail : List String) (oldId oldScript newId newScript : String) :
+    World → List String → List String → World × Bool
   | w, _, [] => (w, true)
   | w, done, k :: rest =>
-    match w.store.tasks k with
-    | none => updateAll env fail old new ((disassociate w old.id k).note "tupdate-stale-association") (done ++ [k]) rest
-    | some t =>
-      let w := if old.id ≠ new.id then associate w new.id k else w
-      let t := retarget env old new t
-      let (w, _) := tasksReplace w t
-      if t.enabled then
-        let (w, ok) := startTask env fail (stopTask w k) t
-        if ok then updateAll env fail old new (w.note "tupdate-restart") (done ++ [k]) rest
-        else (rollback env fail old (w.note "tupdate-rollback") (done ++ [k]), false)
-      else updateAll env fail old new (w.note "tupdate-disabled-task") (done ++ [k]) rest
+    if (retargetOne env fail oldId oldScript newId newScript w k).2 then
+      updateAll env fail oldId oldScript newId newScript (retargetOne env fail oldId oldScript newId newScript w k).1 (done ++ [k]) rest
+    else
+      (rollback env fail oldId oldScript ((retargetOne env fail oldId oldScript newId newScript w k).1.note "tupdate-rollback") (done ++ [k]), false)
+
+/-- Save the updated template: ID change = Create(new) + Delete(old) (which drops the old associations), else Replace. -/
+def storeTemplate (w : World) (id newId script : String) : World × Bool :=
+  if id ≠ newId then
+    if (tmplCreate w newId script).2 then ((tmplDelete (tmplCreate w newId script).1 id).note "trename", true)
+    else ((tmplCreate w newId script).1.note "trename-onto-existing", false)
+  else tmplReplace w id script
 
 /-- handleUpdateTemplate. -/
 def updateTemplate (env : Env) (fail : List String) (w : World) (id newId script : String) : World × Resp :=
   match w.store.tmpls id with
   | none => (w.note "tupdate-missing", .nf)
-  | some orig =>
-    let upd : Tmpl := { id := if newId ≠ "" then newId else orig.id, script := if script ≠ "" then script else orig.script }
-    if !(env upd.script).tmplOk then (w.note "tupdate-invalid", .bad)
+  | some os =>
+    if !(env (if script ≠ "" then script else os)).tmplOk then (w.note "tupdate-invalid", .bad)
+    else if !(storeTemplate w id (if newId ≠ "" then newId else id) (if script ≠ "" then script else os)).2 then
+      ((storeTemplate w id (if newId ≠ "" then newId else id) (if script ≠ "" then script else os)).1, .fail)
+    -- the two parses at the top of updateAllAssociatedTasks (an error runs the deferred rollback with i = 0)
+    else if !(env os).parse || !(env (if script ≠ "" then script else os)).parse then
+      ((rollback env fail id os (storeTemplate w id (if newId ≠ "" then newId else id) (if script ≠ "" then script else os)).1
+          ((listAssoc w.store id).take 1)).note "tupdate-unparsable", .fail)
     else
-      let taskIds := listAssoc w.store orig.id
-      let r1 : World × Bool :=
-        if orig.id ≠ upd.id then
-          let (w, ok) := tmplCreate w upd
-          if !ok then (w.note "trename-onto-existing", false) else ((tmplDelete w orig.id).note "trename", true)
-        else tmplReplace w upd
-      if !r1.2 then (r1.1, .fail)
-      else
-        let w := r1.1
-        -- the two parses at the top of updateAllAssociatedTasks (an error runs the deferred rollback with i = 0)
-        if !(env orig.script).parse || !(env upd.script).parse then
-          ((if taskIds.isEmpty then w else rollback env fail orig w (taskIds.take 1)).note "tupdate-unparsable", .fail)
-        else
-          let (w, ok) := updateAll env fail orig upd w [] taskIds
-          (w.note (if taskIds.isEmpty then "tupdate-no-tasks" else "tupdate-tasks"), if ok then .ok else .fail)
+      ((updateAll env fail id os (if newId ≠ "" then newId else id) (if script ≠ "" then script else os)
+          (storeTemplate w id (if newId ≠ "" then newId else id) (if script ≠ "" then script else os)).1 [] (listAssoc w.store id)).1.note
+          (if (listAssoc w.store id).isEmpty then "tupdate-no-tasks" else "tupdate-tasks"),
+        if (updateAll env fail id os (if newId ≠ "" then newId else id) (if script ≠ "" then script else os)
+          (storeTemplate w id (if newId ≠ "" then newId else id) (if script ≠ "" then script else os)).1 [] (listAssoc w.store id)).2
+        then .ok else .fail)
 
 /-- handleDeleteTemplate. -/
 def deleteTemplate (w : World) (id : String) : World × Resp := ((tmplDelete w id).note "tdelete", .ok)
+
+/-! ### process start -/
 
 /-- Service.Open on a fresh TaskMaster: start every task stored as enabled (failures are only logged). -/
 def openAll (env : Env) (fail : List String) : World → List String → World
   | w, [] => w
   | w, k :: rest =>
     match w.store.tasks k with
-    | some t => if t.enabled then openAll env fail (startTask env fail w t).1 rest else openAll env fail w rest
+    | some t => if t.enabled then openAll env fail (startTask env fail w k t).1 rest else openAll env fail w rest
     | none => openAll env fail w rest
 
 /-- Process start on a given file: empty TaskMaster, then Open. -/
 def boot (env : Env) (fail : List String) (s : Store) (br : List String) : World :=
   openAll env fail { store := s, br := br } s.tids
 
-def beginReq (w : World) (cut : Option Nat) : World := { w with ntx := 0, cut := cut, snap := if cut = some 0 then some w.store else none }
+def beginReq (w : World) (cut : Option Nat) : World :=
+  { w with ntx := 0, cut := cut, snap := if cut = some 0 then some w.store else none }
 
 /-- One request (without crash). -/
 def handle (v : Variant) (env : Env) (fail : List String) (w : World) : Op → World × Resp
@@ -419,15 +444,18 @@ def handle (v : Variant) (env : Env) (fail : List String) (w : World) : Op → W
   | .tdelete id => deleteTemplate w id
   | .restart => ((boot env fail w.store w.br).note "restart", .ok)
 
+/-- The file a crash at the crash point of the request leaves. -/
+def crashFile (w : World) : Store := match w.snap with | some s => s | none => w.store
+
 /-- One step of a history: the request, then — when a crash point `cut` is given — a restart of the process on
 the file as it was after `cut` transactions of the request (after all of them when the request had fewer). -/
 def step (v : Variant) (env : Env) (fail : List String) (cut : Option Nat) (w : World) (op : Op) : World × Resp :=
-  let (w', resp) := handle v env fail (beginReq w cut) op
   match cut with
-  | none => (w', resp)
+  | none => handle v env fail (beginReq w cut) op
   | some _ =>
-    let file := match w'.snap with | some s => s | none => w'.store
-    let w'' := boot env fail file (w'.note "crash-restart").br
-    ({ w'' with ntx := w'.ntx }, resp)
+    ({ boot env fail (crashFile (handle v env fail (beginReq w cut) op).1)
+              ((handle v env fail (beginReq w cut) op).1.note "crash-restart").br
+         with ntx := (handle v env fail (beginReq w cut) op).1.ntx },
+     (handle v env fail (beginReq w cut) op).2)
 
 end Kap.C14
